@@ -85,7 +85,7 @@ def place(vertices_resources, nets, machine, constraints,
                 raise InsufficientResourceError(
                     "Ran out of chips while attempting to place vertex "
                     "{}".format(vertex))
-            location = random.sample(locations, 1)[0]
+            location = random.sample(list(locations), 1)[0]
 
             resources_if_placed = subtract_resources(
                 machine[location], vertices_resources[vertex])
